@@ -434,7 +434,7 @@ func genC05(c *Ctx) {
 	mk := func(l int, ver uint8) genBlob {
 		g := genBlob{ns: pick(r, nss), ver: ver, data: patterned(r, l)}
 		if ver == 1 {
-			g.signer = r.Bytes(20)
+			g.signer = randSigner(r)
 		}
 		return g
 	}
